@@ -92,7 +92,17 @@ def apply_org_edit(p, model, ops):
             new.add_worker(w)
 
 
+def maybe_prelude_backward(rng, spec, prob=0.1):
+    if spec.get("history") is None and rng.random() < prob:
+        spec["prelude_backward"] = {"due": rng.random() < 0.4, "reverse": rng.random() < 0.5, "limit": rng.choice([None, None, 1, 3, 6])}
+    return spec
+
+
 def history_candidates(spec):
+    if spec.get("prelude_backward") is not None:
+        c = dict(spec)
+        c.pop("prelude_backward")
+        yield c
     h = spec.get("history")
     if h is not None:
         c = dict(spec)
@@ -121,13 +131,30 @@ def run_forward(spec, **kw):
     one of a two-call history on the same project object (see maybe_history)."""
     scen.setup_run(spec.get("seed", 0))
     hist = spec.get("history")
+    from .. import build as B
+    from .. import seams
+    pb = spec.get("prelude_backward")
+    if hist is None and pb is not None:
+        # a backward simulation on the same object first; the forward run that follows is the one the oracles look at
+        tr = scen.Trace()
+        tr.model, tr.cfg = spec["model"], spec["cfg"]
+        tr.built = B.build(spec["model"], spec.get("ranks"))
+        tr.project = tr.built.project
+        tr.absence = set(spec["cfg"].get("absence", []))
+        pcfg = dict(spec["cfg"])
+        if pb.get("limit") is not None:
+            pcfg["max_time"] = pb["limit"]
+        scen.simulate(tr.project, pcfg, want_snap=False, backward=pb)
+        tr.rec, tr.out = scen.simulate(tr.project, spec["cfg"], **kw)
+        tr.ix = tr.rec.ix
+        tr.log_offset = 0
+        tr.history = None
+        return tr
     if hist is None:
         tr = scen.run_forward(spec["model"], spec.get("ranks"), spec["cfg"], **kw)
         tr.log_offset = 0
         tr.history = None
         return tr
-    from .. import build as B
-    from .. import seams
     tr = scen.Trace()
     tr.model, tr.cfg = spec["model"], spec["cfg"]
     ops = hist.get("org_edit")
